@@ -9,7 +9,7 @@ for d in sorted(glob.glob(os.path.join(ROOT, "seeded", "*"))):
     res = json.load(open(os.path.join(d, "result.json"))) if os.path.exists(os.path.join(d, "result.json")) else None
     note = meta.get("needs_to_manifest", "")
     first = [l for l in note.splitlines() if l.strip()]
-    title = re.sub(r"^#+\s*(m\d\s*[-:—]\s*)*", "", first[0]) if first else ""
+    title = re.sub(r"^#+\s*(C\d\d\s*[-/ ]*\s*)?(m\d\s*[-:—]+\s*)*", "", first[0]) if first else ""
     files = sorted(set(re.findall(r"^\+\+\+ b/(\S+)", open(os.path.join(d, "patch.diff")).read(), re.M)))
     caught = "not run"
     if res:
